@@ -101,7 +101,7 @@ class Translator:
         if d in ("np.inf", "numpy.inf", "math.inf"):
             return sp.oo
         if d is not None:
-            if self.structured and d not in self.env and d.split(".")[0] not in ("np", "numpy", "math", "sp", "scipy", "self"):
+            if self.structured and d not in self.env and d.split(".")[0] not in ("np", "numpy", "math", "sp", "scipy"):
                 return sp.Function("attr_" + n.attr)(self.tr(n.value))
             if d not in self.env and isinstance(n.value, ast.Name) and n.value.id in self.env and self.attr_of_bound:
                 return sp.Function("attr_" + n.attr)(self.env[n.value.id])
@@ -115,6 +115,11 @@ class Translator:
             return self.env[txt]
         base = self.tr(n.value)
         idx = self._index(n.slice)
+        if getattr(getattr(base, "func", None), "__name__", "") == "dict" and getattr(idx, "is_Symbol", False) and idx.name.startswith("'"):
+            # lookup in a dict display built in the same function
+            for a in base.args:
+                if getattr(a.func, "__name__", "") == "kv_" + idx.name.strip("'"):
+                    return a.args[0]
         return sp.Function("getitem")(base, idx)
 
     def _index(self, s):
@@ -401,7 +406,23 @@ class Translator:
         return sp.Function("dict")(*items)
 
     def t_JoinedStr(self, n):
-        return sp.Symbol("<str>")
+        # f-strings whose parts are all literal text or string-valued names fold to a string constant
+        parts = []
+        for v in n.values:
+            if isinstance(v, ast.Constant) and isinstance(v.value, str):
+                parts.append(v.value)
+            elif isinstance(v, ast.FormattedValue) and v.format_spec is None and v.conversion == -1:
+                try:
+                    x = self.tr(v.value)
+                except AnalysisError:
+                    return sp.Symbol("<str>")
+                if x.is_Symbol and x.name.startswith("'") and x.name.endswith("'"):
+                    parts.append(x.name[1:-1])
+                else:
+                    return sp.Symbol("<str>")
+            else:
+                return sp.Symbol("<str>")
+        return sp.Symbol("'" + "".join(parts) + "'")
 
 
 def minmax_of_ifexp(n: ast.IfExp, T: Translator) -> Optional[sp.Expr]:
